@@ -124,6 +124,11 @@ type outcome struct {
 	err1  error
 	err2  error
 	state2 map[string][]int
+	// third run, after the injected faults have been lifted (a transient outage, then a retry)
+	err3   error
+	state3 map[string][]int
+	// what the source holds after the three runs
+	source map[string][]int
 }
 
 // execute builds the repositories, runs Sync twice and reads the target back.
@@ -199,6 +204,20 @@ func execute(c Case, workers int) (outcome, string) {
 		return res, hang
 	}
 	res.state2 = read()
+	for _, a := range c.Assets {
+		fs.FailGetSince[a.Name], ft.FailAppend[a.Name] = false, false
+	}
+	res.err3 = run()
+	if hang != "" {
+		return res, hang
+	}
+	res.state3 = read()
+	res.source = map[string][]int{}
+	for _, a := range c.Assets {
+		if days, ok := contents(source, a.Name); ok {
+			res.source[a.Name] = days
+		}
+	}
 	return res, ""
 }
 
@@ -285,6 +304,40 @@ func check(c Case) engine.Outcome {
 			o.Failf("asset %s: a second Sync run changed the target from %v to %v", a.Name, have, have2)
 			return o
 		}
+	}
+	// the retry after the faults are gone completes what was missing, adds nothing twice, and
+	// reading never changes the source
+	wantErr3 := false
+	for _, a := range c.Assets {
+		want := append([]int{}, a.Target...)
+		if requested[a.Name] {
+			if !a.InSource {
+				wantErr3 = true
+			} else {
+				from := c.Start
+				if len(want) > 0 {
+					from = want[len(want)-1] + 1
+				}
+				for _, d := range a.Source {
+					if d >= from {
+						want = append(want, d)
+					}
+				}
+			}
+		}
+		if have3 := got.state3[a.Name]; !eqInts(have3, want) {
+			o.Failf("asset %s (read fault=%v, append fault=%v on the first two runs): after the retry without faults the target holds days %v, expected previous %v followed by the source's missing days = %v (source %v, default start %d, %d workers)",
+				a.Name, a.FailRead, a.FailAppend, have3, a.Target, want, a.Source, c.Start, c.Workers)
+			return o
+		}
+		if a.InSource && !eqInts(got.source[a.Name], a.Source) {
+			o.Failf("asset %s: the SOURCE holds days %v after three Sync runs, it held %v before (reading must not change it)", a.Name, got.source[a.Name], a.Source)
+			return o
+		}
+	}
+	if (got.err3 != nil) != wantErr3 {
+		o.Failf("retry without faults returned error %v, expected an error = %v (only an asset missing from the source can still fail)", got.err3, wantErr3)
+		return o
 	}
 	if (got.err1 != nil) != wantErr {
 		o.Failf("Sync returned error %v, expected an error = %v (a requested asset with a read/append fault or missing from the source) (case %+v)", got.err1, wantErr, c)
